@@ -197,6 +197,11 @@ func c02main(c *Ctx) {
 	// two registered custom severities: one without and one with the error device
 	_ = slog.RegisterLevel(c02lvlPlain, "c02plain", slog.RegWithTreatedAsLevel(slog.InfoLevel))
 	_ = slog.RegisterLevel(c02lvlErr, "c02err", slog.RegWithTreatedAsLevel(slog.WarnLevel), slog.RegWithPrintToErrorDevice(true))
+	// titles of fewer characters than the tag width but more bytes, and the other way round
+	_ = slog.RegisterLevel(c02lvlWide1, "日本", slog.RegWithTreatedAsLevel(slog.InfoLevel))
+	_ = slog.RegisterLevel(c02lvlWide2, "ñé", slog.RegWithTreatedAsLevel(slog.WarnLevel), slog.RegWithPrintToErrorDevice(true))
+	_ = slog.RegisterLevel(c02lvlWide3, "😀", slog.RegWithTreatedAsLevel(slog.InfoLevel))
+	_ = slog.RegisterLevel(c02lvlWide4, "Ünïcödé-títlé", slog.RegWithTreatedAsLevel(slog.InfoLevel))
 	slog.AddFlags(slog.LnoInterrupt)
 	savedDefault := slog.Default()
 	c.Each(func(idx int, r *gen.R) {
@@ -234,15 +239,23 @@ func c02main(c *Ctx) {
 		} else {
 			lg = slog.New(name).Root()
 		}
-		lg.SetWriter(pool[d.normal[0]])
-		for _, w := range d.normal[1:] {
-			lg.AddWriter(pool[w])
+		// a logger that is never given a normal or an error writer: the destinations selected for it are the package's
+		// default devices (fds 1 and 2 of this process, observed through files), whatever per-level writers it gets
+		defaultDev := r.P(8)
+		if defaultDev {
+			d.normal, d.errs = nil, nil
+			c.R.Add("calls_on_a_logger_left_to_the_default_devices", 1)
+		} else {
+			lg.SetWriter(pool[d.normal[0]])
+			for _, w := range d.normal[1:] {
+				lg.AddWriter(pool[w])
+			}
+			lg.SetErrorWriter(pool[d.errs[0]])
+			for _, w := range d.errs[1:] {
+				lg.AddErrorWriter(pool[w])
+			}
 		}
-		lg.SetErrorWriter(pool[d.errs[0]])
-		for _, w := range d.errs[1:] {
-			lg.AddErrorWriter(pool[w])
-		}
-		if r.P(25) {
+		if r.P(25) || (defaultDev && r.P(50)) {
 			l := gen.Pick(r, []slog.Level{slog.InfoLevel, slog.ErrorLevel, slog.AlwaysLevel, slog.DebugLevel})
 			d.perLevel[l] = []int{perm[3]}
 			lg.AddLevelWriter(l, pool[perm[3]])
@@ -259,7 +272,7 @@ func c02main(c *Ctx) {
 		// destination selected for the severity still gets its one whole Write. The diagnostic warning the library
 		// then issues is a record of its own (C13 judges it) and is left out of the per-call count.
 		failing := -1
-		if r.P(15) {
+		if r.P(15) && !defaultDev {
 			failing = perm[r.Intn(3)]
 			if failing == 4 {
 				failing = perm[3]
@@ -278,7 +291,7 @@ func c02main(c *Ctx) {
 		lg.SetLevel(L)
 		is.SetDebugMode(false)
 		deep := false
-		if r.P(6) && L != slog.OffLevel {
+		if r.P(6) && L != slog.OffLevel && !defaultDev {
 			// a logger deep down a chain (every level with an attribute of its own)
 			for d := r.Range(7, 14); d > 0; d-- {
 				lg = lg.New(fmt.Sprintf("deep%d", d))
@@ -287,7 +300,7 @@ func c02main(c *Ctx) {
 			c.R.Add("calls_on_a_logger_seven_or_more_levels_down", 1)
 			deep = true
 		}
-		if (deep || r.P(20)) && L != slog.OffLevel {
+		if (deep || r.P(20)) && L != slog.OffLevel && !defaultDev {
 			lg = lg.New("kid")
 			// a child has no writers of its own: give it the same configuration
 			lg.SetWriter(pool[d.normal[0]])
@@ -312,7 +325,7 @@ func c02main(c *Ctx) {
 		vb := gen.Pick(r, verbs)
 		sev := vb.sev
 		if vb.any {
-			sev = gen.Pick(r, []slog.Level{slog.ErrorLevel, slog.WarnLevel, slog.InfoLevel, slog.DebugLevel, slog.TraceLevel, slog.AlwaysLevel, slog.OKLevel, slog.SuccessLevel, slog.FailLevel, slog.OffLevel, slog.Level(55), slog.Level(-1), slog.Level(-8), slog.Level(-1000), slog.Level(64), slog.Level(1 << 20), c02lvlPlain, c02lvlErr})
+			sev = gen.Pick(r, []slog.Level{slog.ErrorLevel, slog.WarnLevel, slog.InfoLevel, slog.DebugLevel, slog.TraceLevel, slog.AlwaysLevel, slog.OKLevel, slog.SuccessLevel, slog.FailLevel, slog.OffLevel, slog.Level(55), slog.Level(-1), slog.Level(-8), slog.Level(-1000), slog.Level(64), slog.Level(1 << 20), c02lvlPlain, c02lvlErr, c02lvlWide1, c02lvlWide2, c02lvlWide3, c02lvlWide4})
 		}
 		if vb.pkg {
 			slog.SetDefault(lg) // *Entry is a Logger the package functions know
@@ -356,11 +369,15 @@ func c02main(c *Ctx) {
 			c.R.Add("calls_after_SetLevelColors_for_the_severity", 1)
 		}
 		desc := map[string]any{"format": f.String(), "logger_level": L.String(), "entry": vb.name, "mode": mode, "severity": int(sev), "msg": q(clip(msg, 200)), "nargs": len(args), "args": adesc,
-			"normal": d.normal, "error": d.errs, "failing_writer": failing, "per_level": fmt.Sprint(d.perLevel), "flags": int64(slog.GetFlags()), "child": name == "kid", "nil_ctx": ctx == nil, "context_keys": ctxKeys}
+			"normal": d.normal, "error": d.errs, "default_devices": defaultDev, "failing_writer": failing, "per_level": fmt.Sprint(d.perLevel), "flags": int64(slog.GetFlags()), "child": name == "kid", "nil_ctx": ctx == nil, "context_keys": ctxKeys}
 		c.R.JournalNote(fmt.Sprintf("%v", desc))
 		log.Reset()
 		pkgCall := false
 		panicked := ""
+		var fdsRestore func() (out1, out2 []byte)
+		if defaultDev {
+			fdsRestore = borrowFds()
+		}
 		func() {
 			defer func() {
 				if e := recover(); e != nil {
@@ -402,6 +419,10 @@ func c02main(c *Ctx) {
 			}
 		}()
 		_ = pkgCall
+		var fd1, fd2 []byte
+		if fdsRestore != nil {
+			fd1, fd2 = fdsRestore()
+		}
 		if panicked != "" {
 			f0 := vb.name
 			if mode != "verb" {
@@ -412,7 +433,7 @@ func c02main(c *Ctx) {
 		}
 		evs := log.Events()
 		c.R.Add("write_events", int64(len(evs)))
-		treat := map[slog.Level]slog.Level{c02lvlPlain: slog.InfoLevel, c02lvlErr: slog.WarnLevel}
+		treat := map[slog.Level]slog.Level{c02lvlPlain: slog.InfoLevel, c02lvlErr: slog.WarnLevel, c02lvlWide1: slog.InfoLevel, c02lvlWide2: slog.WarnLevel, c02lvlWide3: slog.InfoLevel, c02lvlWide4: slog.InfoLevel}
 		for k, v := range builtinTreatAs {
 			treat[k] = v
 		}
@@ -430,6 +451,38 @@ func c02main(c *Ctx) {
 		if adm {
 			for _, w := range sel {
 				want[fmt.Sprintf("W%d", w)]++
+			}
+		}
+		if defaultDev {
+			// what reached fds 1 and 2: nothing unless the call is admitted and no per-level writer is selected; then
+			// exactly one whole record on the device of the severity's class and nothing on the other
+			feature := vb.name
+			if mode != "verb" {
+				feature = mode
+			}
+			w1, w2 := []byte(nil), []byte(nil)
+			if adm && len(sel) == 0 {
+				if builtinErrorClass(sev) {
+					w2 = []byte("x")
+				} else {
+					w1 = []byte("x")
+				}
+			}
+			for _, x := range []struct {
+				name      string
+				got, want []byte
+			}{{"stdout", fd1, w1}, {"stderr", fd2, w2}} {
+				if (len(x.got) > 0) != (len(x.want) > 0) {
+					c.R.Violation(idx, "delivery", "C02/delivery/default-device/"+feature, fmt.Sprintf("a logger never given normal/error writers (per-level: %v), severity %v(%d), admitted=%v: %s received %d byte(s) %s; writer events: %s", d.perLevel, sev, int(sev), adm, x.name, len(x.got), q(clip(string(x.got), 300)), clip(fmtEvents(evs), 600)), desc)
+					return
+				}
+				if len(x.got) > 0 {
+					if why := wholeRecord(f, x.got, id, blank, c.Testing); why != "" {
+						c.R.Violation(idx, "whole-record", "C02/whole-record/default-device/"+f.String()+"/"+feature, fmt.Sprintf("what reached %s is not one whole record: %s: %s", x.name, why, q(clip(string(x.got), 600))), desc)
+						return
+					}
+					c.R.Add("records_delivered_whole_to_a_default_device", 1)
+				}
 			}
 		}
 		got := map[string][]mon.Event{}
@@ -544,12 +597,16 @@ func wholeRecord(f Format, p []byte, id string, blank, testing bool) string {
 const (
 	c02lvlPlain = slog.Level(70) // registered, no error device: normal writers
 	c02lvlErr   = slog.Level(71) // registered for the error device
+	c02lvlWide1 = slog.Level(72) // titles with multi-byte characters
+	c02lvlWide2 = slog.Level(73) // (error device)
+	c02lvlWide3 = slog.Level(74)
+	c02lvlWide4 = slog.Level(75)
 )
 
 // builtinErrorClass: the severities that go to the error writers in the C02 processes.
 func builtinErrorClass(l slog.Level) bool {
 	switch l {
-	case slog.PanicLevel, slog.FatalLevel, slog.ErrorLevel, slog.WarnLevel, slog.FailLevel, c02lvlErr:
+	case slog.PanicLevel, slog.FatalLevel, slog.ErrorLevel, slog.WarnLevel, slog.FailLevel, c02lvlErr, c02lvlWide2:
 		return true
 	}
 	return false
